@@ -107,3 +107,133 @@ theorem WT.setRV_sub_isSome (fld : Nat → Nat → Nat) : ∀ (σ : List Nat) (t
       | some k0 => simpa using WT.setRV_sub_isSome fld σ k0 (fld a n)
 
 end GojaModel.C13
+
+namespace GojaModel.C13
+
+/-! ### histories: handing out nested wrappers and re-pointing, in any order -/
+
+/-- replace the (first) cache entry for field n -/
+def setKid : List (Nat × WT) → Nat → WT → List (Nat × WT)
+  | [], _, _ => []
+  | (m, k) :: rest, n, k' => if m = n then (m, k') :: rest else (m, k) :: setKid rest n k'
+
+/-- `_getFieldValue` on the wrapper at path σ for field n: the cached nested wrapper if there is one, otherwise a new
+    wrapper for the field's address, entered into that wrapper's valueCache -/
+def WT.addKid (fld : Nat → Nat → Nat) : WT → List Nat → Nat → WT
+  | .node l kids, [], n =>
+    match lookupKid kids n with
+    | some _ => .node l kids
+    | none => .node l ((n, .node (fld l n) []) :: kids)
+  | .node l kids, m :: σ, n =>
+    match lookupKid kids m with
+    | some k => .node l (setKid kids m (k.addKid fld σ n))
+    | none => .node l kids
+
+/-- every handed-out nested wrapper refers to the corresponding field of what the root wrapper refers to -/
+def WT.Pointed (fld : Nat → Nat → Nat) (t : WT) : Prop :=
+  ∀ σ k, t.sub σ = some k → k.loc = pathAddr fld t.loc σ
+
+theorem WT.addKid_loc (fld : Nat → Nat → Nat) : ∀ (t : WT) (σ : List Nat) (n : Nat), (t.addKid fld σ n).loc = t.loc
+  | .node l kids, [], n => by simp only [WT.addKid]; split <;> rfl
+  | .node l kids, m :: σ, n => by simp only [WT.addKid]; split <;> rfl
+
+theorem lookupKid_setKid : ∀ (kids : List (Nat × WT)) (m : Nat) (k' : WT) (m' : Nat),
+    lookupKid (setKid kids m k') m' =
+      if m' = m then (lookupKid kids m).map (fun _ => k') else lookupKid kids m'
+  | [], m, k', m' => by simp [setKid, lookupKid]
+  | (a, k) :: rest, m, k', m' => by
+    simp only [setKid]
+    by_cases ham : a = m
+    · subst ham
+      by_cases h : m' = a
+      · subst h; simp [lookupKid]
+      · have h' : ¬ a = m' := fun e => h e.symm
+        simp [lookupKid, h, h']
+    · simp only [ham, if_false, lookupKid]
+      by_cases h : a = m'
+      · subst h
+        have : ¬ a = m := ham
+        simp [this]
+      · simp only [h, if_false]
+        exact lookupKid_setKid rest m k' m'
+
+theorem WT.Pointed_kid {fld : Nat → Nat → Nat} {t : WT} (h : t.Pointed fld) {m : Nat} {k : WT}
+    (hk : lookupKid t.kids m = some k) : k.Pointed fld ∧ k.loc = fld t.loc m := by
+  have hloc : k.loc = fld t.loc m := by
+    have := h [m] k (by simp [WT.sub, hk])
+    simpa [pathAddr] using this
+  refine ⟨?_, hloc⟩
+  intro σ k2 hs
+  have := h (m :: σ) k2 (by simp [WT.sub, hk, hs])
+  rw [hloc]; simpa [pathAddr] using this
+
+/-- handing out one more nested wrapper anywhere in the tree keeps every nested wrapper pointed at its field -/
+theorem WT.addKid_pointed (fld : Nat → Nat → Nat) : ∀ (σ : List Nat) (t : WT) (n : Nat),
+    t.Pointed fld → (t.addKid fld σ n).Pointed fld
+  | [], .node l kids, n, h => by
+    simp only [WT.addKid]
+    cases hl : lookupKid kids n with
+    | some _ => exact h
+    | none =>
+      intro τ k hs
+      cases τ with
+      | nil => simp only [WT.sub, Option.some.injEq] at hs; subst hs; rfl
+      | cons m τ' =>
+        simp only [WT.sub, WT.kids, lookupKid] at hs
+        by_cases hnm : n = m
+        · subst hnm
+          simp only [if_true] at hs
+          cases τ' with
+          | nil => simp only [WT.sub, Option.some.injEq] at hs; subst hs; rfl
+          | cons a τ'' => simp [WT.sub, WT.kids, lookupKid] at hs
+        · simp only [hnm, if_false] at hs
+          exact h (m :: τ') k (by simpa [WT.sub, WT.kids] using hs)
+  | m :: σ, .node l kids, n, h => by
+    simp only [WT.addKid]
+    cases hl : lookupKid kids m with
+    | none => exact h
+    | some k0 =>
+      have hk0 := WT.Pointed_kid h (t := .node l kids) (by simpa [WT.kids] using hl)
+      have ih := WT.addKid_pointed fld σ k0 n hk0.1
+      intro τ k hs
+      cases τ with
+      | nil => simp only [WT.sub, Option.some.injEq] at hs; subst hs; rfl
+      | cons m' τ' =>
+        simp only [WT.sub, WT.kids] at hs
+        rw [lookupKid_setKid] at hs
+        by_cases hmm : m' = m
+        · subst hmm
+          simp only [if_true, hl, Option.map] at hs
+          have := ih τ' k hs
+          rw [this, WT.addKid_loc, hk0.2]
+          rfl
+        · simp only [hmm, if_false] at hs
+          exact h (m' :: τ') k (by simpa [WT.sub, WT.kids] using hs)
+
+/-- re-pointing (setReflectValue, repaired) establishes the property whatever the tree looked like before -/
+theorem WT.setRV_pointed (fld : Nat → Nat → Nat) (t : WT) (a : Nat) : (t.setRV fld a).Pointed fld := by
+  intro σ k hs
+  have hl : (t.setRV fld a).loc = a := by cases t; rw [WT.setRV_node]; rfl
+  rw [hl]
+  exact WT.setRV_sub fld σ t a k hs
+
+/-- operations on one element wrapper and the nested wrappers below it -/
+inductive WOp where
+  | hand (σ : List Nat) (n : Nat)    -- script: read field n of the (nested) wrapper at path σ
+  | repoint (a : Nat)                -- detach (a = address of the fresh copy) / sort swap / re-allocation
+deriving Repr
+
+def WT.stepW (fld : Nat → Nat → Nat) (t : WT) : WOp → WT
+  | .hand σ n => t.addKid fld σ n
+  | .repoint a => t.setRV fld a
+
+def WT.runW (fld : Nat → Nat → Nat) (t : WT) : List WOp → WT
+  | [] => t
+  | op :: ops => (t.stepW fld op).runW fld ops
+
+theorem WT.runW_pointed (fld : Nat → Nat → Nat) : ∀ (ops : List WOp) (t : WT), t.Pointed fld → (t.runW fld ops).Pointed fld
+  | [], _, h => h
+  | .hand σ n :: ops, t, h => WT.runW_pointed fld ops _ (WT.addKid_pointed fld σ t n h)
+  | .repoint a :: ops, t, _ => WT.runW_pointed fld ops _ (WT.setRV_pointed fld t a)
+
+end GojaModel.C13
